@@ -45,15 +45,18 @@ def reply (r : Res Val) : String :=
 
 def handle1 (op : String) (args : List Sexp) : Option String := do
   match op, args with
-  | "lu", [t, by_] =>
+  | "lu", t :: by_ :: sp =>
       let t ← Table.ofVal (← Val.ofSexp t)
       let by_ ← strsOf by_
       if ¬ by_.Nodup then Option.none else
+      let emptyList := match sp with
+        | [.atom "sp:l"] => true
+        | _ => false
       pure (reply (do
-        let l ← t.listby by_
+        let l ← t.listby by_ emptyList
         let u ← l.unlist
         pure (.tuple [vtableVal l, vtableVal u, t.toVal])))
-  | "gu", [t, by_] =>
+  | "gu", t :: by_ :: _ =>
       let t ← Table.ofVal (← Val.ofSexp t)
       let by_ ← strsOf by_
       if ¬ by_.Nodup then Option.none else
